@@ -166,17 +166,61 @@ Definition derived_field_ty (newtbl tbl : list (string * string)) (h : ty * ty) 
   | None => None
   end.
 
+(* ---- addEdgeWithMappings as a whole (Gen/AddEdgeCode.v) *)
+Inductive ares : Type :=
+| AOk (xs : xstate)     (* return nil *)
+| AFailPlain            (* an error returned before the deferred function is installed: nothing changes *)
+| AFailSticky           (* an error behind it: g.buildError is set; whatever the call changed before is
+                           unobservable from then on (every later call and Compile return the build error) *)
+| AOutside.             (* a path outside the model (a Workflow branch without data flow) *)
+
+(* for endNode := range branch.endNodes { BODY }: the end nodes in the order the map iteration delivers
+   them; the first failing iteration ends the call *)
+Fixpoint x_fold_ends (body : nat -> xstate -> key -> option xstate) (j : nat) (xs : xstate) (ends : list key) : option xstate :=
+  match ends with
+  | [] => Some xs
+  | e :: rest => match body j xs e with
+                 | Some xs1 => x_fold_ends body (S j) xs1 rest
+                 | None => None
+                 end
+  end.
+Definition bres_opt (r : bres) : option xstate := match r with BOk xs _ => Some xs | BFail => None end.
+(* g.branches[s] = append(g.branches[s], branch) *)
+Definition x_push_branch (xs : xstate) (s : key) (t : ty) (ends choice : list key) (conv : list ty) : xstate :=
+  {| x_st := set_branches (x_st xs) (g_branches (x_st xs) ++ [(s, {| b_ty := t; b_ends := ends; b_choice := choice; b_conv := conv |})]);
+     x_gh := x_gh xs |}.
+Definition conv_tys (l : list (option ty)) : list ty :=
+  flat_map (fun o => match o with Some t => [t] | None => [] end) l.
+(* g.nodes[key] = node: the node with its declared types and handlers; its helper is the one of its
+   runnable (newGenericHelper[I, O]; a passthrough node has none yet) *)
+Definition x_push_node (xs : xstate) (k : key) (isp : bool) (i o : option ty) (pre post : option hspec) : xstate :=
+  {| x_st := set_nodes (x_st xs) (g_nodes (x_st xs) ++
+       [(k, {| n_pass := isp; n_in := i; n_out := o;
+               n_pre := option_map h_ty pre; n_post := option_map h_ty post;
+               n_pre_ret := match pre with Some h => h_ret h | None => None end;
+               n_post_ret := match post with Some h => h_ret h | None => None end |})]);
+     x_gh := nlist_set k (match i, o with Some a, Some b => gh_new a b | _, _ => None end) (x_gh xs) |}.
+(* for i := range g.controlEdges[s] { if g.controlEdges[s][i] == e … } *)
+Definition x_has_ctrl (xs : xstate) (s e : key) : bool := mem_pair (s, e) (g_ctrl (x_st xs)).
+Definition x_has_data (xs : xstate) (s e : key) : bool := mem_pair (s, e) (g_data (x_st xs)).
+(* g.controlEdges[s] = append(g.controlEdges[s], e) *)
+Definition x_add_ctrl (xs : xstate) (s e : key) : xstate :=
+  {| x_st := set_ctrl (x_st xs) (g_ctrl (x_st xs) ++ [(s, e)]); x_gh := x_gh xs |}.
+Definition x_add_data (xs : xstate) (s e : key) : xstate :=
+  {| x_st := set_data (x_st xs) (g_data (x_st xs) ++ [(s, e)]); x_gh := x_gh xs |}.
+
 (* ---- the whole builder on [xstate], assembled from translated pieces (Section variables; they are
    instantiated with the definitions of Gen/ValidateCode.v, Gen/BranchCode.v, Gen/AddNodeCode.v in
-   Proofs/GenAgreeC07Run.v).  What surrounds the pieces (the guards of the Add* calls, the duplicate
-   tests, the sticky build error, the bookkeeping of edges / branches) is written as in
-   Model/TypeBuilder.v; a node added with declared types gets the helper newGenericHelper[I, O] of
+   Proofs/GenAgreeC07Run.v).  AddLambdaNode / AddPassthroughNode, AddEdge and AddBranch are the translated
+   addNode, addEdgeWithMappings and addBranch as wholes (addBranch: the translated skeleton around the
+   separately translated pieces branch_head / branch_end); Compile is the sticky build error followed by
+   the translated checks; a node added with declared types gets the helper newGenericHelper[I, O] of
    its runnable, a passthrough node none. *)
 Section XBuilder.
   Variable entry : xstate -> key -> key -> bool -> xres.
-  Variable head : (xstate -> option xstate) -> xstate -> key -> ty -> bres.
-  Variable bend : (xstate -> option xstate) -> xstate -> key -> key -> bres.
-  Variable checks : option N -> option ty -> option ty -> option hspec -> option hspec -> bool.
+  Variable nodef : xstate -> key -> bool -> option ty -> option ty -> option hspec -> option hspec -> ares.
+  Variable edge : (xstate -> option xstate) -> xstate -> key -> key -> bool -> bool -> ares.
+  Variable branchf : (nat -> xstate -> option xstate) -> xstate -> key -> ty -> list key -> list key -> list key -> bool -> ares.
   Variable cchecks : xstate -> bool.
 
   Definition x_upd (orc : nat -> list key) (xs : xstate) : option xstate :=
@@ -188,70 +232,33 @@ Section XBuilder.
   Definition x_with (xs : xstate) (st : gstate) : xstate := {| x_st := st; x_gh := x_gh xs |}.
   Definition x_err (xs : xstate) : xstate := x_with xs (set_err (x_st xs)).
 
-  Definition x_add_node (xs : xstate) (k : key) (isp : bool) (i o : option ty) (pre post : option hspec) : xstate * bool :=
-    let st := x_st xs in
-    if g_err st then (xs, false)
-    else if g_compiled st then (xs, false)
-    else if N.eqb k kSTART || N.eqb k kEND then (x_err xs, false)
-    else if has_node st k then (x_err xs, false)
-    else if negb (checks (g_st st) i o pre post) then (x_err xs, false)
-    else
-      let n := {| n_pass := isp; n_in := i; n_out := o;
-                  n_pre := option_map h_ty pre; n_post := option_map h_ty post;
-                  n_pre_ret := match pre with Some h => h_ret h | None => None end;
-                  n_post_ret := match post with Some h => h_ret h | None => None end |} in
-      ({| x_st := set_nodes st (g_nodes st ++ [(k, n)]);
-          x_gh := nlist_set k (match i, o with Some a, Some b => gh_new a b | _, _ => None end) (x_gh xs) |}, true).
-
-  Definition x_add_edge (orc : nat -> nat -> list key) (xs : xstate) (s e : key) : xstate * bool :=
-    let st := x_st xs in
-    if g_err st then (xs, false)
-    else if g_compiled st then (xs, false)
-    else if N.eqb s kEND then (x_err xs, false)
-    else if N.eqb e kSTART then (x_err xs, false)
-    else if negb (has_node st s) && negb (N.eqb s kSTART) then (x_err xs, false)
-    else if negb (has_node st e) && negb (N.eqb e kEND) then (x_err xs, false)
-    else if mem_pair (s, e) (g_ctrl st) then (x_err xs, false)
-    else
-      let st1 := mark_ends (set_ctrl st (g_ctrl st ++ [(s, e)])) s e in
-      if mem_pair (s, e) (g_data st1) then (x_err xs, false)
-      else
-        match x_upd (orc 0%nat) (x_with xs (set_tvm st1 (g_tvm st1 ++ [(s, e)]))) with
-        | Some xs2 => (x_with xs2 (set_data (x_st xs2) (g_data (x_st xs2) ++ [(s, e)])), true)
-        | None => (x_err xs, false)
-        end.
-
-  Fixpoint x_branch_ends (orc : nat -> nat -> list key) (j : nat) (xs : xstate) (s : key) (ends : list key) : option xstate :=
-    match ends with
-    | [] => Some xs
-    | e :: rest =>
-        match bend (x_upd (orc (S j))) xs s e with
-        | BOk xs1 _ => x_branch_ends orc (S j) xs1 s rest
-        | BFail => None
-        end
+  (* what a call leaves behind, by the way it returned *)
+  Definition x_of_ares (xs : xstate) (r : ares) : xstate * bool :=
+    match r with
+    | AOk xs' => (xs', true)
+    | AFailPlain => (xs, false)
+    | AFailSticky => (x_err xs, false)
+    | AOutside => (xs, false)
     end.
 
-  Definition conv_tys (l : list (option ty)) : list ty :=
-    flat_map (fun o => match o with Some t => [t] | None => [] end) l.
+  (* AddLambdaNode / AddPassthroughNode: the translated addNode *)
+  Definition x_add_node (xs : xstate) (k : key) (isp : bool) (i o : option ty) (pre post : option hspec) : xstate * bool :=
+    x_of_ares xs (nodef xs k isp i o pre post).
 
+  (* AddEdge: the translated addEdgeWithMappings (an ordinary edge: control and data, no mappings) *)
+  Definition x_add_edge (orc : nat -> nat -> list key) (xs : xstate) (s e : key) : xstate * bool :=
+    x_of_ares xs (edge (x_upd (orc 0%nat)) xs s e false false).
+
+  (* AddBranch: the translated addBranch (with data flow); the k-th call of updateToValidateMap inside
+     it iterates toValidateMap in the order the model's oracle gives for it, the end nodes are visited
+     in the order [order_keys (orc 0 0) ends] *)
+  Definition x_branch_upd (orc : nat -> nat -> list key) (j : nat) : xstate -> option xstate :=
+    match j with
+    | O => x_upd (fun n => orc 0%nat (S n))
+    | S j' => x_upd (orc (S j'))
+    end.
   Definition x_add_branch (orc : nat -> nat -> list key) (xs : xstate) (s : key) (t : ty) (ends choice : list key) : xstate * bool :=
-    let st := x_st xs in
-    if g_err st then (xs, false)
-    else if g_compiled st then (xs, false)
-    else if N.eqb s kEND then (x_err xs, false)
-    else if negb (has_node st s) && negb (N.eqb s kSTART) then (x_err xs, false)
-    else if Nat.eqb (List.length ends) 1 then (x_err xs, false)
-    else
-      match head (x_upd (fun n => orc 0%nat (S n))) xs s t with
-      | BOk xs1 conv =>
-          match x_branch_ends orc 0 xs1 s (order_keys (orc 0%nat 0%nat) ends) with
-          | Some xs2 =>
-              let b := {| b_ty := t; b_ends := ends; b_choice := choice; b_conv := conv_tys conv |} in
-              (x_with xs2 (set_branches (x_st xs2) (g_branches (x_st xs2) ++ [(s, b)])), true)
-          | None => (x_err xs, false)
-          end
-      | BFail => (x_err xs, false)
-      end.
+    x_of_ares xs (branchf (x_branch_upd orc) xs s t ends (order_keys (orc 0%nat 0%nat) ends) choice false).
 
   (* compile: the sticky build error, then the translated checks *)
   Definition x_compile (xs : xstate) : xstate * bool :=
